@@ -269,3 +269,5 @@ func chunkStats(sg *gen.Seg) chunkInfo {
 }
 
 func pick(r *rand.Rand, xs ...int) int { return xs[r.Intn(len(xs))] }
+
+func hashAny(parts ...interface{}) uint64 { return runner.Hash(parts...) }
